@@ -118,8 +118,7 @@ Definition read_dev (st : list shard) (e : N) (i : nat) (c tg : N) : nat :=
   let tag_ok := negb found || (tg =? bytes_of i) in
   if Bool.eqb found want && tag_ok then 0%nat else dev_class st e a.
 
-(* head never runs the second scan, so only K0/K1/K3 classes apply; the same
-   classifier is used *)
+(* Get and Head are both checked (C20_get_iff_partial, C20_head_iff_partial) *)
 Fixpoint ref_devs (u : universe) (en : engine) (k : nat) (ops : list (eop * obs))
   : list (nat * nat) :=
   match ops with
@@ -127,7 +126,7 @@ Fixpoint ref_devs (u : universe) (en : engine) (k : nat) (ops : list (eop * obs)
   | (o, ob) :: r =>
     let here :=
       match o with
-      | OGet i _ => read_dev (shards en) (epoch en) i (o_res ob) (o_tag ob)
+      | OGet i _ | OHead i _ => read_dev (shards en) (epoch en) i (o_res ob) (o_tag ob)
       | _ => 0%nat
       end in
     let '(_, _, en') := step u en o in
@@ -155,7 +154,7 @@ Fixpoint count_reads (u : universe) (en : engine) (ops : list (eop * obs)) : nat
     let '(_, _, en') := step u en o in
     let '(c, n) := count_reads u en' r in
     match o with
-    | OGet i _ => ((if consistent (shards en) (epoch en) (oid_of i) then S c else c), S n)
+    | OGet i _ | OHead i _ => ((if consistent (shards en) (epoch en) (oid_of i) then S c else c), S n)
     | _ => (c, n)
     end
   end.
